@@ -214,9 +214,9 @@ REPLACE_NOTE = {
  "C18": "PARTIAL by nature: the kernel signal/ppoll contract is a hypothesis (a watched signal is blocked outside ppoll and delivered by the next ppoll, which returns EINTR). Holds for the repaired code (fix: b5fb3ed, e0a376f, 5dc9719, 5568265, 2af2153, 25c7eb9, 26151f4, 89e79c0); pinned code refuted (C18_*_refuted_*). Proved: refinement of the iteration model to the snapshot specification (C18_refines: log equality for every script and ppoll outcome stream, descriptors >= 0), incl. callbacks that cancel/register/stop and the SIGINT watch of tickit_run; the self-pipe fallback refines its own snapshot specification (C18_fallback_refines). C18_signal_reaches alone (pending set empty) would be satisfied by a model that drops signals; its content comes together with C18_refines and C18_all_watchers_invoked. Implementation = model is tested, not proved.",
 }
 APPEND_NOTE = {
- "C01": " QUALIFIER (audit): the window model runs the rectangle-set loops with a fixed fuel of 300 (WinRectSet.rsfuel); every history/flush theorem carries the hypothesis that no loop ran out of it (r_fault = false), so the theorems are silent for histories whose pending damage reaches about 300 rectangles (C05 proves that sufficient fuel always exists, but that theorem is not connected to this constant). C01_nested_* (a handler that flushes the root or changes geometry) proves the flag and id-uniqueness invariants only, and C01_history_xterm excludes flush and terminal resize.",
- "C02": " QUALIFIER (audit): C02_rects_disjoint has the hypotheses ids_unique and Inv of the damage set, both discharged by C01's invariants (C01_forest_unique_*, C01_damage_inv); the fuel-300 qualifier of C01 applies here too.",
- "C15": " QUALIFIER (audit): the fuel-300 qualifier of C01 applies to C15_requested / C15_flush / C15_history*.",
+ "C01": " QUALIFIER (audit, then partly closed): the rectangle-set loops of the window model run on a fuel that is a field of the model state (300 in the extracted model the C is compared with); every history/flush theorem holds for EVERY fuel under the hypothesis that no loop ran out of the state's fuel (r_fault = false). For histories WITHOUT scroll operations some fuel provably suffices: C01_history_total / C01_history_total_flushed (there is a fuel such that, with it and every larger one, the run does not fault, the invariant holds, and after a final flush every cell shows the composition), from C05's termination theorems and fuel monotonicity (C01_run_fuel_monotone covers every operation incl. scrolls). For histories with scrolls the 'exists fuel' half is not proved: those theorems stay conditional on r_fault = false. C01_nested_* (a handler that flushes the root or changes geometry) proves the flag and id-uniqueness invariants only, and C01_history_xterm excludes flush and terminal resize.",
+ "C02": " QUALIFIER (audit): C02_rects_disjoint has the hypotheses ids_unique and Inv of the damage set, both discharged by C01's invariants (C01_forest_unique_*, C01_damage_inv); the fuel qualifier of C01 applies here too (theorems hold for every fuel, conditional on no loop running out of it).",
+ "C15": " QUALIFIER (audit): the fuel qualifier of C01 applies to C15_requested / C15_flush / C15_history* (every fuel, conditional on no rectangle-set loop running out of it; C15_init_any_fuel).",
  "C14": " QUALIFIER (audit): C14_mutation_rest is stated for events that no handler claims; with a claimer present only self-close is covered (C14_mutation_self_partial). C14_term_key / C14_term_mouse(_seq) require tree height below the fuel 64 (explicit in the statements).",
  "C09": " QUALIFIER (audit): in a sequence the claim stops at the first out-of-range or excluded request (seq_ok_excl is a nested implication); 'in range' also requires no pending wrap for relative moves, erases and non-empty prints (i.e. the request after a print ending in the last column is out of range unless it is an absolute goto), erase with the cursor to move strictly inside the line, and printable ASCII for print at this level (wider text class in C04_C09_flush_on_vt).",
  "C12": " C12_history_refuted and C12_getctl_refuted have the same statement shape (a history the checker rejects); they differ in the witness (teardown bytes vs. getctl read-back).",
